@@ -56,20 +56,6 @@ NATIVE_UNITS = {
     "library_witness": {"file": "src/interpreter/interpreter.rs", "source": "library_instances.rs",
                         "modpath": "interpreter::interpreter", "test": "verif_native_library_witness", "role": "witness",
                         "for_fns": ["eval_library_definition"]},
-    "library_instance_known": {"file": "src/interpreter/interpreter.rs", "source": "library_instances.rs",
-                               "modpath": "interpreter::interpreter", "test": "verif_native_library_instance_known", "role": "known",
-                               "finding": "library-instantiated-per-import"},
-    "tail_space_witness": {"file": "src/interpreter/interpreter.rs", "source": "tail_space.rs",
-                           "modpath": "interpreter::interpreter", "test": "verif_native_tail_space_witness", "role": "witness",
-                           "for_fns": ["eval_tail_expression", "eval_owned_tail_expression", "apply_procedure", "eval_procedure_call"]},
-    "apply_tail_known": {"file": "src/interpreter/interpreter.rs", "source": "tail_space.rs",
-                         "modpath": "interpreter::interpreter", "test": "verif_native_apply_tail_known", "role": "known",
-                         "finding": "apply-not-a-tail-call"},
-    "template_location_known": {"file": "src/interpreter/interpreter.rs", "source": "eval_location.rs",
-                                "modpath": "interpreter::interpreter", "test": "verif_native_template_location_known", "role": "known",
-                                "finding": "template-location"},
-    "after_error_witness": {"file": "src/interpreter/interpreter.rs", "source": "vector_builtins.rs",
-                            "modpath": "interpreter::interpreter", "test": "verif_native_after_error_witness", "role": "witness", "for_fns": []},
     "tail_arity_panic": {"file": "src/interpreter/interpreter.rs", "source": "tail_arity.rs",
                          "modpath": "interpreter::interpreter", "test": "verif_native_tail_arity_panic",
                          "role": "witness", "for_fns": ["apply_procedure"]},
@@ -99,15 +85,15 @@ _TAIL_UNVERIFIED = [
 
 PROPS = {
     "C13": {
-        "verus": ["interp_library"], "kani": [], "native": ["library_witness", "library_instance_known"],
+        "verus": ["interp_library"], "kani": [], "native": ["library_witness"],
         "level": "proof",
         "explanation": "Interpreter::eval_library_definition is proved, for library definitions of any size, to evaluate the library's "
                        "imports and body in a frame of its own (created by Environment::new(): no parent, so nothing of the importer is "
                        "visible in it -- every call into the evaluator requires exactly that frame) and to build a library that holds "
                        "exactly the bindings of its export specs, in order: external name |-> what the internal name is bound to in that "
                        "frame (rename exports under the external name only; an export of an unbound name is an error, never a binding).",
-        "unverified": ["'all imports of a library within one program refer to one instance': NOT the case (known finding "
-                       "library-instantiated-per-import); get_library / new_library (factories in a HashMap) are not under contract",
+        "unverified": ["'all imports of a library within one program refer to one instance' (true since fix e409057): get_library / new_library "
+                       "(factories and instances in HashMaps) are not under contract -- covered by the witness search library_witness only",
                        "that the importer gains only what eval_import_set returns (eval_import: HashMap::extend + define, not under contract)",
                        "that redefining an imported name in the importer does not affect the library's procedures: closures capture the "
                        "library's frame (evaluator semantics, C01) -- covered by the witness search only"],
